@@ -147,9 +147,14 @@ def load_known():
         return json.load(f)
 
 
-def finish(run, mod, extra_coverage=None, selftest=None):
-    """Write evidence, print VIOLATION / KNOWN-FINDING lines, return exit code."""
-    run.check_minimums()
+def finish(run, mod, extra_coverage=None, selftest=None, aborted=None):
+    """Write evidence, print VIOLATION / KNOWN-FINDING lines, return exit code.  ``aborted``: the text of an
+    AnalysisError that stopped the rule functions after violations had already been established - those are reported
+    (a violation found is a violation whatever the analyser could not make sense of later)."""
+    if aborted is None:
+        run.check_minimums()
+    else:
+        print('ANALYSIS-ERROR after the violations below: %s' % aborted)
     known = {k['key']: k for k in load_known().get('known', []) if k.get('property') == run.prop}
     evdir = os.environ.get('LOMOND_EVIDENCE_DIR') or os.path.join(VERIF, 'evidence')
     fdir = os.path.join(evdir, 'findings')
@@ -208,6 +213,7 @@ def finish(run, mod, extra_coverage=None, selftest=None):
         'files': run.prog.files_digest(),
         'pruned_dead_code': sorted(set(p for m in run.prog.modules.values() for p in m.pruned)),
         'helpers_inlined': list(run.prog.inlined),
+        'analysis_aborted': aborted,
         'known_findings_reported': sorted(set(f['key'] for f, _ in known_hit)),
         'checker_cmd': './check %s --tier %s' % (run.prop, run.tier),
         'trusted_base': ['CPython ast module', 'lomondsa CFG/dominator/exception-edge construction',
